@@ -973,11 +973,10 @@ def run_backref_exhaustion(ck, exe):
     (8160 live large objects), the OS refuses the library's own requests while the pool's raw callback still delivers: the allocation that needs
     the new leaf must fail cleanly — every live block keeps its size / owner / contents — and requests succeed again afterwards"""
     bad, runs = [], 0
-    for (nlive, osz) in ((8150, 8200), (8157, 9000), (8140, 20000)):
-        lines = ["P 1", "M pool 1 0 0 0 0 1"]
-        lines += ["0 pmalloc 1 %d %d" % (i, osz) for i in range(nlive)]
-        lines += ["P 1", "M osfail 1 1"]
-        lines += ["0 pmalloc 1 %d %d" % (nlive + i, osz) for i in range(40)]
+    for (nlive, osz) in ((8185, 8200), (8185, 9000), (8180, 20000)):
+        # the default heap is drained first (so that the table can only grow through the OS), then the pool fills the table's leaves
+        lines = ["P 1", "M pool 1 0 0 0 0 1", "0 pmalloc 1 0 100", "P 1", "M osfail 1 1", "0 ddrain 1 %d 0" % (nlive + 60)]
+        lines += ["0 pmalloc 1 %d %d" % (i, osz) for i in range(1, nlive)]
         lines += ["0 pamalloc 1 %d %d 12" % (nlive + 40, osz), "0 pmalloc 1 %d 100" % (nlive + 41)]
         lines += ["P 1", "M osfail 1 0", "0 !pmalloc 1 %d %d" % (nlive + 50, osz), "0 !pmalloc 1 %d 300000" % (nlive + 51), "0 pmsize 1 0", "0 pmsize 1 %d" % (nlive // 2),
                   "0 pfree 1 0", "0 pfree 1 %d" % (nlive // 2)]
